@@ -92,6 +92,11 @@ var coseAlgSignatureAlgMap = map[cose.Algorithm]signature.Algorithm{
 	cose.AlgorithmES512: signature.AlgorithmES512,
 }
 
+// systemHeaders are the protected header labels defined by the envelope
+// specification. They are never extended attributes.
+var systemHeaders = []any{cose.HeaderLabelAlgorithm, cose.HeaderLabelCritical, cose.HeaderLabelContentType,
+	headerLabelExpiry, headerLabelSigningScheme, headerLabelSigningTime, headerLabelAuthenticSigningTime}
+
 // Map of signingScheme to signingTime header label
 var signingSchemeTimeLabelMap = map[signature.SigningScheme]string{
 	signature.SigningSchemeX509:                 headerLabelSigningTime,
@@ -477,6 +482,9 @@ func generateProtectedHeaders(req *signature.SignRequest, protected cose.Protect
 
 	// extended attributes
 	for _, elm := range req.ExtendedSignedAttributes {
+		if err := validateExtendedAttributeKey(elm.Key); err != nil {
+			return &signature.InvalidSignRequestError{Msg: err.Error()}
+		}
 		if _, ok := protected[elm.Key]; ok {
 			return &signature.InvalidSignRequestError{Msg: fmt.Sprintf("%q already exists in the protected header", elm.Key)}
 		}
@@ -605,8 +613,6 @@ func validateCritHeaders(protected cose.ProtectedHeader) ([]any, error) {
 	}
 
 	// fetch all the extended signed attributes
-	systemHeaders := []any{cose.HeaderLabelAlgorithm, cose.HeaderLabelCritical, cose.HeaderLabelContentType,
-		headerLabelExpiry, headerLabelSigningScheme, headerLabelSigningTime, headerLabelAuthenticSigningTime}
 	var extendedAttributeKeys []any
 	for label := range protected {
 		if contains(systemHeaders, label) {
@@ -634,6 +640,42 @@ func generateExtendedAttributes(extendedAttributeKeys []any, protected cose.Prot
 		})
 	}
 	return extendedAttr, nil
+}
+
+// validateExtendedAttributeKey checks that the key of an extended attribute
+// is a valid COSE label (int / tstr) and is not a label defined by the
+// envelope specification.
+func validateExtendedAttributeKey(key any) error {
+	label := key
+	switch k := key.(type) {
+	case string:
+	case int:
+		label = int64(k)
+	case int8:
+		label = int64(k)
+	case int16:
+		label = int64(k)
+	case int32:
+		label = int64(k)
+	case int64:
+	case uint:
+		label = int64(k)
+	case uint8:
+		label = int64(k)
+	case uint16:
+		label = int64(k)
+	case uint32:
+		label = int64(k)
+	case uint64:
+		label = int64(k)
+	default:
+		return fmt.Errorf("extended attribute key %v: require int / tstr type", key)
+	}
+	if contains(systemHeaders, label) {
+		// labels defined by the specification are set by Sign itself
+		return fmt.Errorf("%q already exists in the protected header", key)
+	}
+	return nil
 }
 
 // contains checks if e is in s
